@@ -397,6 +397,8 @@ type c06Stall struct {
 	Who     string   `json:"who_stalls"` // client (stops reading what the host sends) | host (stops reading what the client sends)
 	StallMs int      `json:"stall_ms"`
 	During  []string `json:"client_sends_during_stall"` // ka | data | unk (client stall only: the client still writes)
+	CloseAtEnd bool  `json:"close_channel_during_stall,omitempty"` // client stall only: the last thing the client sends while not reading is CLOSE_CHANNEL
+	Others  int      `json:"other_tunnels_relaying_meanwhile,omitempty"` // client stall only: further tunnels whose hosts send while the write to the stalled client is blocked
 	Seed    byte     `json:"seed"`
 }
 
@@ -439,6 +441,38 @@ func runC06Stall(c c06Stall, o gwOpts, tgt gwc.Target) *Violation {
 				return viol("c06/stall/host-write", "the host's connection broke while the client was not reading (%s): %v", desc, err)
 			}
 		}
+		// meanwhile other tunnels of the same gateway relay host data to clients that do read
+		for k := 0; k < c.Others; k++ {
+			before := len(w.L["A"].Conns())
+			oc, err := gwc.Dial("ws", tgt, sess.NewConnID())
+			if err != nil {
+				return viol("c06/open", "further tunnel did not open: %v", err)
+			}
+			defer oc.Close()
+			for _, u := range setup {
+				oc.Send(u)
+			}
+			oh := w.L["A"].WaitAccept(before+1, 10*time.Second)
+			if oh == nil {
+				return viol("c06/setup", "no backend connection for a further tunnel")
+			}
+			defer oh.Close()
+			sentO := 0
+			for j := 0; j < 60; j++ {
+				b := streamBytes(c.Seed+byte(7*k+3), sentO, 1500+37*j)
+				if oh.Write(b) != nil {
+					break
+				}
+				sentO += len(b)
+			}
+			gotO, perr, _ := pollDataPayload(oc, sentO, 20*time.Second)
+			if perr != nil {
+				return viol("c06/stall/malformed", "further tunnel %d: %v (%s)", k, perr, desc)
+			}
+			if wantO := streamBytes(c.Seed+byte(7*k+3), 0, sentO); !bytes.Equal(gotO, wantO) {
+				return viol("c06/stall/other-tunnel", "further tunnel %d: its host wrote %d bytes, its client received %d (first difference at %d) (%s)", k, sentO, len(gotO), firstDiff(gotO, wantO), desc)
+			}
+		}
 		// meanwhile the client still talks
 		var c2h []byte
 		for i, k := range c.During {
@@ -452,6 +486,45 @@ func runC06Stall(c c06Stall, o gwOpts, tgt gwc.Target) *Violation {
 				c2h = append(c2h, b...)
 				conn.Send(tsgu.Data(b))
 			}
+		}
+		if c.CloseAtEnd {
+			// the client asks for the channel to be closed while it still does not read: the answer is built while
+			// the relay's write is blocked; it must arrive as what it is, after an intact prefix of the host's stream
+			conn.Send(tsgu.Data([]byte("x"))) // a channel is closed from the state in which data flows
+			conn.Send(tsgu.CloseChannel())
+			time.Sleep(stall)
+			ws.Pause(false)
+			if !conn.WaitEOF(30 * time.Second) {
+				return viol("c16/stall/no-end", "the tunnel did not end after CLOSE_CHANNEL (%s)", desc)
+			}
+			var payload []byte
+			units := conn.Units()
+			closes := 0
+			for i, u := range units {
+				p, rest := tsgu.SplitStream(u)
+				if len(p) != 1 || rest != nil {
+					return viol("c16/stall/malformed", "message %d of %d received after the stall is not exactly one packet (%d bytes: %x) (%s)", i, len(units), len(u), trunc64b(u), desc)
+				}
+				r, err := tsgu.Decode(p[0])
+				if err != nil {
+					return viol("c16/stall/malformed", "message %d of %d received after the stall: %v (%s)", i, len(units), err, desc)
+				}
+				if r.Type == tsgu.PktData {
+					payload = append(payload, r.Payload...)
+				}
+				if r.Type == tsgu.PktCloseChannelResponse && r.Status == 0 {
+					closes++
+				} else if r.Type != tsgu.PktData && i >= 4 {
+					return viol("c16/stall/unexpected-packet", "message %d of %d received after the stall is %v: neither relayed data nor the answer to CLOSE_CHANNEL (%s)", i, len(units), r, desc)
+				}
+			}
+			if want := streamBytes(c.Seed, 0, len(payload)); len(payload) > total || !bytes.Equal(payload, want) {
+				return viol("c06/stall/host-to-client", "what the client received before the close is not a prefix of what the host wrote (first difference at %d of %d) (%s)", firstDiff(payload, want), len(payload), desc)
+			}
+			if closes != 1 {
+				return viol("c16/stall/close-response", "CLOSE_CHANNEL was answered %d times with success before the tunnel ended, want once (%d messages received) (%s)", closes, len(units), desc)
+			}
+			return nil
 		}
 		time.Sleep(stall)
 		ws.Pause(false)
@@ -504,27 +577,51 @@ func runC06Stall(c c06Stall, o gwOpts, tgt gwc.Target) *Violation {
 	return nil
 }
 
+func genC06Stall(t *rapid.T, long bool) c06Stall {
+	c := c06Stall{Opts: genC01Opts(t), Kind: genKind(t), Who: rapid.SampledFrom([]string{"client", "client", "host"}).Draw(t, "who"), Seed: rapid.Byte().Draw(t, "seed")}
+	c.StallMs = rapid.SampledFrom([]int{50, 300, 1500}).Draw(t, "stall")
+	if c.Who == "host" {
+		c.StallMs = rapid.SampledFrom([]int{300, 2500, 6500}).Draw(t, "hostStall")
+		if long {
+			c.StallMs = rapid.SampledFrom([]int{300, 2500, 5500, 6500, 8000}).Draw(t, "hostStallLong") // the harness's own sends give up after 10 s
+		}
+	} else {
+		c.Kind = "ws" // only the websocket client of the harness can stop reading
+		c.During = rapid.SliceOfN(rapid.SampledFrom([]string{"ka", "ka", "data", "unk"}), 0, 4).Draw(t, "during")
+		c.Others = rapid.SampledFrom([]int{0, 0, 1, 3}).Draw(t, "others")
+		c.CloseAtEnd = rapid.IntRange(0, 3).Draw(t, "closeAtEnd") == 0
+	}
+	return c
+}
+
+func classifyC06Stall(c c06Stall) (bool, []string) {
+	cl := []string{"who=" + c.Who, "kind=" + c.Kind, fmt.Sprintf("stall=%d", c.StallMs), fmt.Sprintf("others=%d", c.Others)}
+	if c.CloseAtEnd {
+		cl = append(cl, "close-during-stall")
+	}
+	return true, cl
+}
+
+func runC06StallInp(c c06Stall) *Violation {
+	o := resolveHosts(c.Opts)
+	return withGateway(mkGateway(o), func() *Violation {
+		return runC06Stall(c, o, inpTarget(userHeader(o, W().User)...))
+	})
+}
+
 func TestC06_STALL(t *testing.T) {
 	long := os.Getenv("VERIF_TIER") == "thorough"
-	runProp(t, "C06_STALL", func(t *rapid.T) c06Stall {
-		c := c06Stall{Opts: genC01Opts(t), Kind: genKind(t), Who: rapid.SampledFrom([]string{"client", "client", "host"}).Draw(t, "who"), Seed: rapid.Byte().Draw(t, "seed")}
-		c.StallMs = rapid.SampledFrom([]int{50, 300, 1500}).Draw(t, "stall")
-		if c.Who == "host" {
-			c.StallMs = rapid.SampledFrom([]int{300, 2500, 6500}).Draw(t, "hostStall")
-			if long {
-				c.StallMs = rapid.SampledFrom([]int{300, 2500, 5500, 6500, 8000}).Draw(t, "hostStallLong") // the harness's own sends give up after 10 s
-			}
-		} else {
-			c.Kind = "ws" // only the websocket client of the harness can stop reading
-			c.During = rapid.SliceOfN(rapid.SampledFrom([]string{"ka", "ka", "data", "unk"}), 0, 4).Draw(t, "during")
-		}
+	runProp(t, "C06_STALL", func(t *rapid.T) c06Stall { return genC06Stall(t, long) }, classifyC06Stall, runC06StallInp)
+}
+
+// C16: an answer built while the relay's write to a non-reading client is blocked (and while other tunnels build
+// packets of their own) still arrives as the packet it is.
+func TestC16_STALL(t *testing.T) {
+	runProp(t, "C16_STALL", func(t *rapid.T) c06Stall {
+		c := genC06Stall(t, false)
+		c.Who, c.Kind, c.CloseAtEnd = "client", "ws", true
+		c.StallMs = rapid.SampledFrom([]int{50, 300}).Draw(t, "stall16")
+		c.Others = rapid.SampledFrom([]int{1, 2, 3}).Draw(t, "others16")
 		return c
-	}, func(c c06Stall) (bool, []string) {
-		return true, []string{"who=" + c.Who, "kind=" + c.Kind, fmt.Sprintf("stall=%d", c.StallMs)}
-	}, func(c c06Stall) *Violation {
-		o := resolveHosts(c.Opts)
-		return withGateway(mkGateway(o), func() *Violation {
-			return runC06Stall(c, o, inpTarget(userHeader(o, W().User)...))
-		})
-	})
+	}, classifyC06Stall, runC06StallInp)
 }
